@@ -1,5 +1,16 @@
-(** C07 — placeholder while the proofs are being written. *)
-From Drummer.Model Require Import Base Jepsen.
-Theorem C07_tmp : format_log [] = [].
-Proof. reflexivity. Qed.
-Print Assumptions C07_tmp.
+(** C07 — recorded client histories are faithful and survive the Jepsen log round trip.
+    Property theorems only (interim: C07_accepts_linearizable is being added). *)
+From Coq Require Import Sorted.
+From Drummer.Model Require Import Base Register Jepsen Recorder.
+From Drummer.Proofs Require Import JepsenProofs RecorderProofs.
+
+Theorem C07_wellformed : forall n ls s, run (init n) ls = Some s ->
+  obs_ok (observations s) = true /\ wf_events (events s) = true /\ events_of (observations s) = events s.
+Proof. exact wellformed. Qed.
+Print Assumptions C07_wellformed.
+
+Theorem C07_roundtrip : forall es, Forall (fun e => printable e = true) es ->
+  parse_log (format_log es) = expected_log es /\
+  (forall h, parse_allowed (format_log es) h <-> history_allowed es h).
+Proof. intros es H. split; [exact (roundtrip_log es H)|exact (roundtrip_allowed es H)]. Qed.
+Print Assumptions C07_roundtrip.
